@@ -40,9 +40,11 @@ def choose_lists(tier, rng):
     for _ in range(npairs):
         a, b = rng.choice(len(singles), 2, replace=True)
         lists.append([dict(singles[a]), dict(singles[b])])
-    for _ in range(ntrip):
-        idx = rng.choice(len(singles), 3, replace=True)
-        lists.append([dict(singles[i]) for i in idx])
+    multi = [s for s in singles if s["nx"] >= 3]  # running offsets only matter for surfaces with >= 2 chordwise panels
+    for t in range(ntrip):
+        idx = rng.choice(len(singles), 2, replace=True)
+        tail = rng.choice(len(multi), 2 if t % 2 else 1, replace=True)
+        lists.append([dict(singles[i]) for i in idx] + [dict(multi[i]) for i in tail])   # three or four surfaces
     # full-span surfaces handed to OAS need odd ny only for structures; for aero any ny >= 2 is fine
     return lists
 
